@@ -165,7 +165,7 @@ def all_configs():
             out.append(mkcfg("/", False, template, suffix))
         out.append(mkcfg("/p", False, template, ""))
         out.append(mkcfg("/p/...", False, template, ".j2", key=":system_id:"))
-        out.append(mkcfg("/x-.../q", False, template, "", key=":system_id:"))
+        out.append(mkcfg("/x-...-y/q", False, template, "", key=":system_id:"))
         out.append(mkcfg("/p", True, template))
         out.append(mkcfg("/p/...", True, template, key=":system_id:"))
         out.append(mkcfg("/", True, template))
